@@ -323,4 +323,90 @@ theorem failOne_plainLeafAt (c : Cfg) (k : Kind) (s : Sys) (q : List Nat) (r : B
   cases (effect c k s.env.st (critLeafAt s.f q)).st <;> cases (effect c k s.env.st (critLeafAt s.f q)).su <;>
     simp only [plainLeafAt_updStatus, plainLeafAt_updState]
 
+/-! ### the `environmentId` label of a message about a task -/
+
+theorem failOne_eq_applyEffect (c : Cfg) (k : Kind) (s : Sys) (p : List Nat) (r : Bool) :
+    failOne c k s p r = applyEffect c (effect c k s.env.st (critLeafAt s.f p)) s p r := rfl
+
+theorem hitLoose_internal (t : RTask) : t.hitLoose .INTERNAL = t := by
+  cases t; rfl
+
+/-- A device event about a task without a parent role: no environment is found, nothing happens. -/
+theorem hit_internal_loose (c : Cfg) (W : World) (i : Nat) (t : RTask) (r : Bool) (h : t.owner = none) :
+    hit c .INTERNAL W i t r = W := by
+  unfold hit
+  simp only [h]
+  cases hr : W.roster[i]? with
+  | none => rfl
+  | some t' =>
+    have hlt : i < W.roster.length := by
+      rcases Nat.lt_or_ge i W.roster.length with h1 | h1
+      · exact h1
+      · rw [List.getElem?_eq_none h1] at hr; cases hr
+    have ht : W.roster[i] = t' := by
+      rw [List.getElem?_eq_getElem hlt] at hr; exact Option.some.inj hr
+    simp only [hitLoose_internal]
+    cases W with
+    | mk envs roster =>
+      simp only at hlt ht ⊢
+      congr 1
+      rw [← ht]; exact List.set_getElem_self hlt
+
+/-- **The label is irrelevant for a core that resolves the environment through the task**: the
+    labelled per-task body IS `hit`, whatever the label names. -/
+theorem hitTagged_byTask (c : Cfg) (hc : c.envByTask = true) (k : Kind) (W : World) (i : Nat) (t : RTask) (r : Bool)
+    (lab : Option Nat) : hitTagged c k W i t r lab = hit c k W i t r := by
+  unfold hitTagged resolveEnv
+  cases k <;> try rfl
+  simp only [hc, if_true]
+  cases ho : t.owner with
+  | none => exact (hit_internal_loose c W i t r ho).symm
+  | some o => simp
+
+/-- A label that names the task's own environment (the ordinary case: the task runs in the
+    environment it was launched for) gives `hit` under EITHER way of resolving. -/
+theorem hitTagged_own (c : Cfg) (k : Kind) (W : World) (i : Nat) (t : RTask) (r : Bool) :
+    hitTagged c k W i t r t.owner = hit c k W i t r := by
+  unfold hitTagged resolveEnv
+  cases k <;> try rfl
+  simp only [ite_self]
+  cases ho : t.owner with
+  | none => exact (hit_internal_loose c W i t r ho).symm
+  | some o => simp
+
+theorem hitAllTagged_byTask (wk : Walk) (c : Cfg) (hc : c.envByTask = true) (k : Kind)
+    (ts : List (Nat × RTask × Bool × Option Nat)) :
+    ∀ W : World, hitAllTagged wk c k W ts = hitAll wk c k W (untag ts) := by
+  induction ts with
+  | nil => intro W; rfl
+  | cons x ts ih =>
+    intro W
+    obtain ⟨i, t, r, lab⟩ := x
+    simp only [hitAllTagged, untag, List.map_cons, hitAll, hitTagged_byTask c hc]
+    split
+    · rfl
+    · exact ih _
+
+theorem hitAllTagged_own (wk : Walk) (c : Cfg) (k : Kind) (ts : List (Nat × RTask × Bool × Option Nat))
+    (h : ∀ x ∈ ts, x.2.2.2 = x.2.1.owner) :
+    ∀ W : World, hitAllTagged wk c k W ts = hitAll wk c k W (untag ts) := by
+  induction ts with
+  | nil => intro W; rfl
+  | cons x ts ih =>
+    intro W
+    obtain ⟨i, t, r, lab⟩ := x
+    have hl : lab = t.owner := h (i, t, r, lab) (List.mem_cons_self ..)
+    subst hl
+    simp only [hitAllTagged, untag, List.map_cons, hitAll, hitTagged_own]
+    split
+    · rfl
+    · exact ih (fun y hy => h y (List.mem_cons_of_mem _ hy)) _
+
+theorem untag_length (ts : List (Nat × RTask × Bool × Option Nat)) : (untag ts).length = ts.length := by
+  simp [untag]
+
+theorem untag_mem (ts : List (Nat × RTask × Bool × Option Nat)) (i : Nat) (t : RTask) (r : Bool) (lab : Option Nat)
+    (h : (i, t, r, lab) ∈ ts) : (i, t, r) ∈ untag ts :=
+  List.mem_map.mpr ⟨(i, t, r, lab), h, rfl⟩
+
 end Failure
